@@ -65,7 +65,8 @@ def _ledger_json(ledger: W.Ledger) -> list:
 
 def _repro(entry, ser, detached, conf, ledger, faults, registry=None) -> dict:
     return {"entry": entry, "ser": ser, "detached": detached.hex() if detached is not None else None,
-            "conf": _conf_json(conf), "ledger": _ledger_json(ledger), "faults": faults, "registry": registry}
+            "conf": _conf_json(conf), "ledger": _ledger_json(ledger), "faults": faults, "registry": registry,
+            "companion": W.COMPANION if entry == "extract-interleaved" else None}
 
 
 def _registry(spec):
@@ -92,6 +93,7 @@ def check_delivery(entry, ser, detached, conf, ledger, registry=None):
 
 
 def replay(repro: dict):
+    W.COMPANION = repro.get("companion")
     conf = _conf_from_json(repro["conf"])
     ledger = W.Ledger()
     for i, a, p, pl in repro["ledger"]:
@@ -207,6 +209,10 @@ def run(rng: Rng, tier: str, index: int) -> RunResult:
         res.probe("vacuous-run")
         res.digest = tr.digest()
         return res
+    W.COMPANION = None
+    if form == "compact" and isinstance(A.ser, str):
+        W.COMPANION = A.ser
+        live_entries.append("extract-interleaved")
 
     other_algs = [a for a in W.SIGN_ALGS]
     stride = 1
